@@ -101,11 +101,13 @@ static Json op_to_json(const Op &op) {
       if (!op.final_nl) o.setb("final_newline", false);
       if (op.sep) o.set("line_end", op.sep == 1 ? "CRLF" : "CR");
       if (op.kind == OP_COUNT) o.set("c", op.c);
+      if (op.kind == OP_COUNT && op.on) o.set("dest", "NULL");
       break;
     case OP_ASM_FILE:
     case OP_COUNT_FILE:
       o.set("path", op.path);
       if (op.kind == OP_COUNT_FILE) o.set("c", op.c);
+      if (op.kind == OP_COUNT_FILE && op.on) o.set("dest", "NULL");
       break;
     case OP_BIN_FILE: o.set("path", op.path); break;
     case OP_LAUNCH:
@@ -162,6 +164,7 @@ static bool op_from_json(const Json &o, Op &op, std::string *err) {
   if (op.kind == OP_CREATE) op.c = o.num("len_argument");
   if (o.has("k")) op.k = o.num("k");
   op.on = o.boolean("on");
+  if (o.str("dest") == "NULL") op.on = true;
   if (const Json *l = o.get("lines"))
     for (const Json &s : l->a) op.lines.push_back(s.s);
   op.final_nl = o.boolean("final_newline", true);
